@@ -124,6 +124,7 @@ class Stats:
     self.q = {"sat": 0, "unsat": 0, "unknown": 0}
     self.solver_s = 0.0
     self.max_q = 0.0
+    self.dumped = []
     self.paths = 0
     self.decisions = 0
     self.obligations = 0
@@ -320,6 +321,15 @@ class Ctx:
     except z3.Z3Exception as ex:
       r = "unknown"
     dt = time.time() - t
+    dq = self.caps.get("dump_queries")
+    if dq and r in ("sat", "unsat") and len(self.stats.dumped) < dq:
+      # deterministic thinning: roughly every 97th decided query of the task
+      n = self.stats.q["sat"] + self.stats.q["unsat"]
+      if n % 97 == 3 or (r == "unsat" and n % 41 == 7):
+        try:
+          self.stats.dumped.append((r, sol.to_smt2()))
+        except z3.Z3Exception:
+          pass
     self.stats.solver_s += dt
     if dt > self.stats.max_q: self.stats.max_q = dt
     self.stats.q[r] += 1
